@@ -15,7 +15,7 @@ static size_t vx_buflen; static unsigned vx_pushes, vx_clears, vx_before_values,
 static void vx_buf_push(char c) { vx_pushed = c; vx_pushes++; vx_buflen++; }
 static void vx_buf_clear(void) { vx_clears++; vx_buflen = 0; }
 static void vx_before_value(int* ec_p) { vx_before_values++; if (nondet_bool()) { int e = nondet_int(); __CPROVER_assume(e != 0); *ec_p = e; } }
-static unsigned vx_begin_records, vx_state_pushes;
+static unsigned vx_begin_records, vx_state_pushes; static size_t vx_header_line_offset; static bool vx_mode_header;   /* header_line_offset_; stack_.back() == csv_mode::header */
 static void vx_begin_record(int* ec_p) { (void)ec_p; vx_begin_records++; }   /* begin_record(visitor, ec): the begin_array / begin_object event of a row */
 static unsigned vx_opens_subfields; static bool vx_mode_subfields;   /* before_value(..., true) calls; stack_.back() == csv_mode::subfields */
 static int vx_spec_r;   /* what the S-CSV decoder does with this character in this state */
@@ -53,6 +53,6 @@ void h_field_states(void) { setup(); vx_mode = nondet_int(); vx_level = nondet_i
 void h_before_value_data(void) { setup(); vx_mapping_kind = nondet_u8(); vx_ncols = nondet_size(); vx_offset = nondet_size(); vx_column_index = nondet_size(); vx_cursor_mode = nondet_bool(); vx_keys = 0; __CPROVER_assume(vx_column_index >= vx_offset && vx_column_index <= SIZE_MAX / 4 && vx_ncols <= SIZE_MAX / 4 && vx_offset <= SIZE_MAX / 4); before_value_data(&vx_p, &vx_ec, nondet_bool()); }
 void h_m_columns_unquoted(void) { setup(); vx_end_values = 0; vx_skips = 0; m_columns_unquoted(&vx_p); }
 void h_m_columns_quoted(void) { setup(); vx_end_values = 0; vx_skips = 0; m_columns_quoted(&vx_p); }
-void h_expect_record(void) { setup(); vx_p.state_ = csv_parse_state_expect_record; vx_buflen = 0; expect_record(&vx_p, &vx_ec); }
+void h_expect_record(void) { setup(); vx_header_line_offset = nondet_size(); vx_mode_header = nondet_bool(); __CPROVER_assume(vx_header_line_offset <= SIZE_MAX / 2); vx_p.state_ = csv_parse_state_expect_record; vx_buflen = 0; expect_record(&vx_p, &vx_ec); }
 void h_unquoted_string(void) { setup(); unquoted_string(&vx_p, &vx_ec); }
 #endif
